@@ -36,7 +36,7 @@ def shape_scripts(specdir, tier, seed, fn="LWW"):
     q = tier == "quick"
     # publications happen in the middle of the histories too (a manifest may have been written before later merges)
     consts = fam_l.base_consts(NR=3, Writer0=[1, 2, 3], Fn=fn, MaxE=6 if q else 7, MaxOps=12 if q else 14, PCs={1, 2, 4},
-                               PubOn={1, 2, 3})
+                               PubOn={1, 2, 3}, Payloads={"p", "empty"})
     res = fam_l.explore(specdir, "shapes", consts, [], [], simulate=(12 if q else 50, 12 if q else 14), seed=seed)
     if res.crashed:
         raise Inconclusive("TLC failed generating shapes:\n" + res.out[-2000:])
@@ -47,6 +47,8 @@ def shape_scripts(specdir, tier, seed, fn="LWW"):
     # two hand-picked classics: a linear chain with skip references and a wide fork
     keep.append(json.dumps([["A", 1, 4]] * 6))
     keep.append(json.dumps([["A", 1, 1], ["A", 2, 1], ["A", 3, 1], ["J", 1, 2], ["J", 1, 3], ["A", 1, 2], ["A", 2, 1], ["J", 1, 2]]))
+    # zero-length payloads in the middle of a chain and at a head of a merged log
+    keep.append(json.dumps([["A", 1, 1], ["A", 1, 1, "empty"], ["A", 1, 1], ["A", 2, 1, "empty"], ["J", 1, 2]]))
     # published, then merged with a replica that is not ahead in Lamport time, then published again (by the shape builder)
     keep.append(json.dumps([["A", 1, 1], ["A", 1, 1], ["A", 1, 1], ["A", 2, 1], ["P", 1], ["J", 1, 2]]))
     return consts, keep
@@ -114,6 +116,13 @@ def make_instances(prop, tier, seed, shapes, fn):
                         if kind == "json" and conc != 2:
                             continue
                         add(shape, rep, kind, n, conc)
+                    # supplied entries that are not the heads of one log: a head plus an entry of its own past (a third party
+                    # rebuilding from the announced heads of two replicas, one of them stale)
+                    vals = list(info["values"])
+                    if kind == "entry" and len(vals) >= 3:
+                        for anc in {vals[len(vals) // 2], vals[0]} - set(info["heads"]):
+                            for conc in (1, 2):
+                                add(shape, rep, "entry", n, conc, start=[info["heads"][0], anc], tag="stalehead")
                     # a head list in another order than this replica's own (a caller-assembled JSON head list, a manifest
                     # written by a replica with another ordering): the outcome must not depend on it
                     hs = list(info["heads"])
